@@ -667,6 +667,9 @@ def gen_export_case(rng):
     c['first_cell_generator'] = rng.random() < 0.5
     if c['first_cell_generator']:
         gens.insert(0, {'type': 'MASS', 'cell': 0, 'name': 'frs 1', 'gx': 1.5, 'ex': 8.5e4, 'hg': None, 'fg': None, 'ltab': None, 'table': False})
+    # the model as a user normally has it: read from a data file (blocks then carry nothing but what the file records),
+    # not the grid object fromgeo() just built
+    c['via_file'] = rng.choice([False, True, True])
     return c
 
 
@@ -745,6 +748,16 @@ def run_export(ctx, c):
         import traceback
         raise HarnessError('building the export case failed: %s\n%s' % (e, traceback.format_exc()))
     route = c['eos_route']
+    if c.get('via_file'):
+        try:
+            path = os.path.join(ctx.tmp, 'export_model.dat')
+            dat.write(path)
+            dat = R.t2data.t2data(path)
+        except Exception as e:
+            import traceback
+            raise HarnessError('writing / reading the export model failed: %s\n%s' % (e, traceback.format_exc()))
+        # the rock types of the blocks are compared by name below: nothing else of the in-memory model is used
+    ctx.see('model_from', 'file' if c.get('via_file') else 'memory')
     ctx.see('eos_route', route)
     ctx.see('atmosphere_type', str(c['atmos_type']))
     ctx.see('block_order', str(c['block_order']))
